@@ -72,6 +72,12 @@ EXPLANATION = (
     "in (4) a method reached through getattr(self, <name>) counts as used by that code when <name> is the loop variable over "
     "one column of a module-level constant table that is used for nothing else (any other getattr(self, ..) in NodeMaker is "
     "an analysis error), and private NodeMaker methods used only from inside _create_from_single_cap count as part of it. "
+    "In (3) a _do_serialized decorated with inlineCallbacks (possibly inherited from a shared mixin) hands each caller a fresh "
+    "Deferred by construction; there the queue discipline is checked on the CFG instead: exactly one binding of "
+    "self._serializer, to a fresh Deferred kept in a local, before the first yield; the previous tail (read into a local "
+    "before that binding) is yielded on every path to cb; cb(*args, **kwargs) is yielded inside a try and its result is what "
+    "the generator returns; the new tail is fired with a constant (eventually(t.callback, c) / t.callback(c)) on every normal "
+    "and exceptional way out after the binding. "
     "Not followed (analysis error, not a verdict): create_from_cap split into helper methods (memo lookup through "
     "self._node_cache.get, key / node built in helpers).")
 TECHNIQUE = ("static analysis: return-shape and who-may-call sweeps, Deferred registration model, CFG path rules, "
@@ -383,7 +389,11 @@ def run(ctx: Context):
         for ci in (mfn, mfv):
             n_st = 0
             for (f, nd) in cg.attr_stores("_serializer"):
-                if not _in_class(f, ci):
+                if not (_in_class(f, ci) or (f.cls is not None and f.cls in ci.mro())):
+                    continue
+                if f is ci.lookup("_do_serialized") and _inline_yields(f) is not None:
+                    # the generator form installs its own tail (checked, with its uniqueness, by _serializer_shape_inline)
+                    r.site(f, nd, "_serializer tail installed by the inlineCallbacks serialiser")
                     continue
                 n_st += 1
                 r.site(f, nd, "_serializer binding")
@@ -897,6 +907,161 @@ def _in_value_position(expr, call):
         return False
 
 
+def _reach(cfg, start_ids, blocked):
+    """Ids of the nodes reachable from `start_ids` (inclusive) along any edge, never entering a node of `blocked`."""
+    seen, stack = set(), [i for i in start_ids if i not in blocked]
+    while stack:
+        i = stack.pop()
+        if i in seen:
+            continue
+        seen.add(i)
+        for (j, _lab) in cfg.succ.get(i, ()):
+            if j not in blocked and j not in seen:
+                stack.append(j)
+    return seen
+
+
+def _node_yields(n):
+    return [x for e in node_exprs(n) for x in own_nodes(e) if isinstance(x, ast.Yield)]
+
+
+def _serializer_shape_inline(r, idx, fn, cbp, va, kw):
+    """_do_serialized written as an ``@inlineCallbacks`` generator.  The decorator hands every caller a fresh Deferred
+    that fires with the generator's return value, so what is checked is the queue discipline: (a) a fresh Deferred is
+    installed as self._serializer before the first yield (a later caller queues behind this one); (b) the previous tail,
+    read before the installation, is yielded before cb runs; (c) cb(*args, **kwargs) is yielded and its result returned;
+    (d) the new tail is fired, with a plain value, on every way out after the installation."""
+    cfg = fn.cfg()
+    rd = C.reaching_defs(cfg)
+    exits = {n.id for n in cfg.nodes if n.kind in ("exit", "raise")}
+
+    def fresh(v):
+        return isinstance(v, ast.Call) and call_tail(v) == "Deferred" and not v.args and not v.keywords
+
+    def defs_at(n, name):
+        return rd.get(n.id, {}).get(name, frozenset())
+
+    # (a) the installation
+    installs = [n for n in cfg.nodes if assign_value(n, "self._serializer") is not None]
+    other_stores = [n for n in cfg.nodes if n not in installs and stores("self._serializer")(n)]
+    if len(installs) != 1 or other_stores:
+        r.violation(fn, fn.loc(), "%s binds self._serializer %d times; expected exactly one installation of this "
+                    "operation's own tail Deferred" % (short(fn), len(installs) + len(other_stores)))
+        return
+    inst = installs[0]
+    v = assign_value(inst, "self._serializer")
+    tails = {}                      # local name of the new tail -> id of the node that must be its reaching definition
+    if fresh(v):
+        for t in inst.ast.targets:
+            if isinstance(t, ast.Name):
+                tails[t.id] = inst.id
+    elif isinstance(v, ast.Name) and fresh(_unique_def(cfg, rd, inst, v.id)):
+        (d,) = tuple(defs_at(inst, v.id))
+        tails[v.id] = d
+    else:
+        r.violation(fn, fn.loc(inst.ast), "%s installs %s as self._serializer, not a fresh Deferred of its own: later "
+                    "operations would not wait for this one" % (short(fn), src(fn, v)))
+        return
+    if not tails:
+        r.violation(fn, fn.loc(inst.ast), "%s keeps no handle on the tail Deferred it installs, so it can never fire it"
+                    % short(fn))
+        return
+    ynodes = [n for n in cfg.nodes if _node_yields(n)]
+    before = _reach(cfg, [cfg.entry.id if hasattr(cfg.entry, "id") else cfg.entry], {inst.id})
+    for n in ynodes:
+        if n.id in before:
+            r.violation(fn, fn.loc(n.ast), "%s yields (%s) before it installed its own tail in self._serializer: every "
+                        "operation requested while it waits queues behind the same old tail, and they are all released "
+                        "together" % (short(fn), src(fn, n.ast)))
+    # (b) the previous tail is awaited before cb runs
+    ahead_nodes = []
+    for n in ynodes:
+        for y in _node_yields(n):
+            if isinstance(y.value, ast.Name):
+                dv = _unique_def(cfg, rd, n, y.value.id)
+                if isinstance(dv, ast.Attribute) and attr_path(dv) == "self._serializer":
+                    (d,) = tuple(defs_at(n, y.value.id))
+                    # read before the installation: the read is not reachable from the installation
+                    if d not in _reach(cfg, [inst.id], set()) and d in before:
+                        ahead_nodes.append(n)
+    cb_nodes = [n for n in cfg.nodes
+                if any(isinstance(c.func, ast.Name) and c.func.id == cbp for c in node_calls(n))]
+    if not cb_nodes:
+        r.violation(fn, fn.loc(), "%s no longer runs cb(*args, **kwargs)" % short(fn))
+        return
+    if not ahead_nodes:
+        r.violation(fn, fn.loc(), "%s does not wait (yield) for the previous tail of self._serializer, read before its own "
+                    "tail was installed: the operation would start while the previous one is still running" % short(fn))
+        return
+    unwaited = _reach(cfg, [cfg.entry.id if hasattr(cfg.entry, "id") else cfg.entry], {n.id for n in ahead_nodes})
+    for n in cb_nodes:
+        r.require(n.id not in unwaited, fn, fn.loc(n.ast), "%s can run cb before the previous operation finished (the "
+                  "previous tail is not awaited on every path to this call)" % short(fn))
+
+    # (c) cb(*args, **kwargs) is yielded, and what the generator returns is the result of that yield
+    def is_cb_call(c):
+        return isinstance(c, ast.Call) and isinstance(c.func, ast.Name) and c.func.id == cbp \
+            and any(isinstance(s, ast.Starred) and isinstance(s.value, ast.Name) and s.value.id == va for s in c.args) \
+            and any(k.arg is None and isinstance(k.value, ast.Name) and k.value.id == kw for k in c.keywords)
+
+    def yields_cb(n, e):
+        if not isinstance(e, ast.Yield) or e.value is None:
+            return False
+        if is_cb_call(e.value):
+            return True
+        return isinstance(e.value, ast.Name) and is_cb_call(_unique_def(cfg, rd, n, e.value.id))
+    for n in cb_nodes:
+        for c in node_calls(n):
+            if isinstance(c.func, ast.Name) and c.func.id == cbp:
+                r.require(is_cb_call(c), fn, fn.loc(c), "the operation is run as %s, not cb(*args, **kwargs)" % src(fn, c))
+    waited = [n for n in ynodes if any(yields_cb(n, y) for y in _node_yields(n))]
+    if not waited:
+        r.violation(fn, fn.loc(), "%s does not yield the Deferred of cb(*args, **kwargs): its tail would fire (and the next "
+                    "operation start) while this operation is still running" % short(fn))
+        return
+    for n in cfg.find(is_return):
+        e = n.ast.value
+        ok = yields_cb(n, e)
+        if not ok and isinstance(e, ast.Name):
+            ds = defs_at(n, e.id)
+            ok = bool(ds) and all(d >= 0 and yields_cb(cfg.nodes[d], assign_value(cfg.nodes[d], e.id)) for d in ds)
+        r.require(ok, fn, fn.loc(n.ast), "%s returns %s, not the result of the awaited operation" % (
+            short(fn), src(fn, e) if e is not None else "None"))
+    for (n, w) in find_path_avoiding(cfg, lambda n: n.kind == "exit", gate_node=is_return):
+        r.violation(fn, fn.loc(), "%s can finish without handing back the operation's result" % short(fn), w)
+        break
+
+    # (d) the new tail fires, with a plain value, on every way out once it is installed
+    def fire(n):
+        for c in node_calls(n):
+            tgt = None
+            if call_tail(c) == "eventually" and len(c.args) == 2 and not c.keywords:
+                tgt, val = c.args[0], c.args[1]
+            elif isinstance(c.func, ast.Attribute) and len(c.args) == 1 and not c.keywords:
+                tgt, val = c.func, c.args[0]
+            if isinstance(tgt, ast.Attribute) and tgt.attr == "callback" and isinstance(tgt.value, ast.Name) \
+                    and tgt.value.id in tails and isinstance(val, ast.Constant) \
+                    and defs_at(n, tgt.value.id) == frozenset([tails[tgt.value.id]]):
+                return True
+        return False
+    fires = {n.id for n in cfg.nodes if fire(n)}
+    if not fires:
+        r.violation(fn, fn.loc(), "%s never fires the tail Deferred it installed: every later operation on this node would "
+                    "wait forever" % short(fn))
+        return
+    after = _reach(cfg, [j for (j, _l) in cfg.succ.get(inst.id, ())], fires)
+    # the operation may fail: where it is run / awaited an exception must have somewhere to go that still fires the tail
+    # (the CFG gives a statement an exceptional edge only inside a try; without one the failure leaves the generator at once)
+    for n in cb_nodes + [w for w in waited if w not in cb_nodes]:
+        if n.id in after and not any(lab == "exc" for (_j, lab) in cfg.succ.get(n.id, ())):
+            r.violation(fn, fn.loc(n.ast), "%s: when the operation fails at %s the generator is left without firing the tail "
+                        "Deferred it installed (no try/finally around it): every later operation on this node would wait "
+                        "forever" % (short(fn), src(fn, n.ast)))
+    r.require(not (after & exits), fn, fn.loc(inst.ast), "%s can finish (or fail) without firing the tail Deferred it "
+              "installed in self._serializer: every later operation on this node would wait forever" % short(fn))
+    r.count(len(cfg.nodes))
+
+
 def _serializer_shape(r, idx, fn):
     r.site(fn, None, "serialiser chain")
     ps = fn.params
@@ -904,6 +1069,8 @@ def _serializer_shape(r, idx, fn):
     if len(ps) < 2 or a.vararg is None or a.kwarg is None:
         raise AnchorVanished("%s(self, cb, *args, **kwargs) signature changed" % short(fn))
     cbp, va, kw = ps[1], a.vararg.arg, a.kwarg.arg
+    if _inline_yields(fn) is not None:
+        return _serializer_shape_inline(r, idx, fn, cbp, va, kw)
     cfg = fn.cfg()
     fnorm = FlowNorm(fn)
     # the caller's Deferred
